@@ -131,6 +131,15 @@ def cmp_cases():
                     a = K[:shared] + K[shared:shared + (union - shared) // 2]
                     b = K[:shared] + K[shared + (union - shared) // 2:union]
                     out.append(([("percent", p)], a, b))
+    # near-boundary sweep: every (shared, union) with union <= 40 whose ratio is within 0.02 of the threshold
+    for p in (0.5, 0.67, 0.7, 0.725, 0.75, 0.8, 0.86, 0.9, 0.34):
+        fr = Fraction(repr(p))
+        for union in range(1, 41):
+            for shared in range(0, union + 1):
+                if abs(Fraction(shared, union) - fr) <= Fraction(1, 50):
+                    a = K[:shared] + K[shared:shared + (union - shared) // 2]
+                    b = K[:shared] + K[shared + (union - shared) // 2:union]
+                    out.append(([("percent", p)], a, b))
     for n in (1, 2, 3, 10):
         for shared in (n - 1, n, n + 1):
             if shared >= 0:
